@@ -55,9 +55,20 @@ func runC06(c *Ctx) error {
 				body = append(body, make([]byte, 123)...)
 			}
 			spec := connSpec{Server: server, Utf8: utf8on, RLimit: 1000}
-			stream := encodeFrame(frameSpec{Fin: true, Opcode: 8, Masked: server, Key: [4]byte{9, 9, 9, 9}, Payload: body, DeclLen: -1})
+			// the Close frame arrives on an idle connection, or while a fragmented message of the peer is still open (control
+			// frames may come between fragments, RFC 6455 5.4), or behind a ping
+			var pre []byte
+			switch (ci + 2*v) % 5 {
+			case 1:
+				pre = dataFrame(2, false, server, []byte("first fragment of a message that will never be finished"))
+			case 2:
+				pre = append(dataFrame(1, false, server, []byte("text ")), encodeFrame(frameSpec{Opcode: 0, Masked: server, Key: [4]byte{7, 7, 7, 7}, Payload: []byte("continued"), DeclLen: -1})...)
+			case 3:
+				pre = encodeFrame(frameSpec{Fin: true, Opcode: 9, Masked: server, Key: [4]byte{8, 8, 8, 8}, Payload: []byte("ping first"), DeclLen: -1})
+			}
+			stream := append(pre, encodeFrame(frameSpec{Fin: true, Opcode: 8, Masked: server, Key: [4]byte{9, 9, 9, 9}, Payload: body, DeclLen: -1})...)
 			stream = append(stream, dataFrame(2, true, server, []byte("after close"))...)
-			if err := inboundOne(c, spec, stream, 0, fmt.Sprintf("close code=%d variant=%d server=%v utf8=%v", code, v, server, utf8on), "C06"); err != nil {
+			if err := inboundOne(c, spec, stream, 0, fmt.Sprintf("close code=%d variant=%d server=%v utf8=%v prefix=%d", code, v, server, utf8on, (ci+2*v)%5), "C06"); err != nil {
 				return err
 			}
 		}
